@@ -524,6 +524,26 @@ impl Kernel {
                 return Err(e);
             }
             let i = self.stopped_tracee(tid)?;
+            if kind == CallKind::PtraceGetregset && self.threads[i].compat32 {
+                // a task in 32-bit mode: the register-set interface returns the i386 layouts, shorter
+                // than what a 64-bit caller asked for (the interposer reports the length in iov_len)
+                let regs = self.threads[i].regs;
+                return match which {
+                    1 => {
+                        self.threads[i].getregs_seq = Some(self.seq);
+                        self.threads[i].getregs_val = Some(regs);
+                        // ebx ecx edx esi edi ebp eax ds es fs gs orig_eax eip cs eflags esp ss
+                        let order = [5usize, 11, 12, 13, 14, 4, 10, 23, 24, 25, 26, 15, 16, 17, 18, 19, 20];
+                        let mut v = Vec::with_capacity(68);
+                        for o in order {
+                            v.extend_from_slice(&(regs[o] as u32).to_le_bytes());
+                        }
+                        Ok(v)
+                    }
+                    2 => Ok(self.threads[i].fp[..108.min(self.threads[i].fp.len())].to_vec()),
+                    _ => Err(EINVAL),
+                };
+            }
             match which {
                 1 => {
                     let regs = self.threads[i].regs;
